@@ -609,6 +609,8 @@ def extra_guards(facts, allowed, body):
             continue
         if allowed(f):
             continue
+        if f in body.presence_assertions():
+            continue
         out.append(show(f, body))
     return out
 
@@ -639,11 +641,20 @@ def pers_fact_is_prestate(f, body, stored_writes):
             cc = t["callee"]
             if cc.get("path", "").endswith("PartialEq>::eq") or cc.get("path", "").endswith("PartialEq>::ne") or \
                     cc.get("decl", "") in ("std::cmp::PartialEq::eq", "std::cmp::PartialEq::ne"):
-                args = body.call_args(t, (bi, len(blk["stmts"])))
-                for a in args:
-                    a = strip_load(deref_addr(body, a))
+                csite = (bi, len(blk["stmts"]))
+                args = body.call_args(t, csite)
+                for a0 in args:
+                    a = strip_load(deref_addr(body, a0))
                     if a[0] == "field" and a[2] == "Vertex::persistence":
-                        if any(w.body is body and body.reaches(w.site, (bi, len(blk["stmts"]))) for w in stored_writes):
+                        # where the compared value was read: at the call (a reference to the field itself), or where a local
+                        # copy of the field was made (`let before = mem::replace(..)`, `let old = vtx.persistence`)
+                        reads = [csite]
+                        a0s = strip_load(a0)
+                        if a0s[0] == "addr":
+                            rds = body.reaching_defs(a0s[1], a0s[2])
+                            if rds and ("entry",) not in rds and all(d[1] < len(body.blocks[d[0]]["stmts"]) for d in rds):
+                                reads = [tuple(d) for d in rds]
+                        if any(w.body is body and body.reaches(w.site, r) for w in stored_writes for r in reads):
                             return False
                         ok = True
     return ok
